@@ -51,6 +51,7 @@ import (
 	"strconv"
 	"strings"
 	"testing"
+	"time"
 )
 
 type c19shape struct {
@@ -155,10 +156,11 @@ func TestVerifC19Size(t *testing.T) {
 	}
 	seed := geti("VERIF_SEED", 0)
 	maxPow := geti("VERIF_SIZE_MAXPOW", 20)        // file sizes up to 2^maxPow
-	widePow := geti("VERIF_SIZE_WIDEPOW", 17)      // above 2^widePow only the first shape of each kind
+	widePow := geti("VERIF_SIZE_WIDEPOW", 16)      // above 2^widePow: four shapes only, and one file size per target (T+1) except for long-name
+	cntPow := geti("VERIF_SIZE_CNTPOW", 12)        // n = T-1, T, T+1 ENTRIES for T up to 2^cntPow (plus one case of 65537 requirements)
 	modelMax := geti("VERIF_SIZE_MODEL", 4200)     // cases of at most this many bytes around T=4096 also go to the Coq model
 	nRandom := geti("VERIF_SIZE_NRANDOM", 40)
-	alignTs := []int{1 << 12, 1 << 16}
+	alignTs := []int{1 << 9, 1 << 12, 1 << 16} // 2^16: one shape only (see below)
 	if os.Getenv("VERIF_SIZE_ALIGN_ALL") != "" {
 		alignTs = nil
 		for k := 9; k <= 17; k++ {
@@ -166,6 +168,7 @@ func TestVerifC19Size(t *testing.T) {
 		}
 	}
 	rng := rand.New(rand.NewSource(int64(seed)*7919 + 1919))
+	t0 := time.Now()
 	dir := t.TempDir()
 	if d, err := os.MkdirTemp("/dev/shm", "verif-c19-size-"); err == nil {
 		dir = d
@@ -235,6 +238,7 @@ func TestVerifC19Size(t *testing.T) {
 		return strings.Join(d, "; ")
 	}
 	// the direct oracle; "" = holds.  b1 = the file of the first write
+	light := false // true: without the two rewrite steps (the large members of the alignment sweep)
 	check := func(c *Config) (name, detail string, b1 []byte) {
 		if !c19valid(c) {
 			return "harness:generated-configuration-not-valid", "", nil
@@ -261,6 +265,9 @@ func TestVerifC19Size(t *testing.T) {
 		}
 		if b2, _ := os.ReadFile(p2); string(b2) != string(b1) {
 			return "second-write-differs", fmt.Sprintf("%d bytes, the first write gave %d", len(b2), len(b1)), b1
+		}
+		if light {
+			return "", "", b1
 		}
 		// dawn get: what was loaded, one requirement more, written over the file; dawn tidy: half of it, over that
 		more := clone(got)
@@ -381,19 +388,27 @@ func TestVerifC19Size(t *testing.T) {
 	}
 	// the configuration of shape sh whose file is exactly T bytes long (false when the shape cannot be that small)
 	exact := func(sh c19shape, T int) (n, pad int, ok bool) {
-		s0, s1 := sizeOf(sh.build(0, 0)), sizeOf(sh.build(8, 0))
-		if s0 < 0 || s1 <= s0 || T < s0 {
+		s0, sA, sB := sizeOf(sh.build(0, 0)), sizeOf(sh.build(8, 0)), sizeOf(sh.build(24, 0))
+		if s0 < 0 || sB <= sA || T < s0 {
 			return 0, 0, false
 		}
-		n = (T - s0) * 8 / (s1 - s0)
-		var s int
-		for s = sizeOf(sh.build(n, 0)); s > T && n > 0; s = sizeOf(sh.build(n, 0)) {
-			n -= 1 + (s-T)*8/(s1-s0)/2
-			if n < 0 {
-				n = 0
+		slope := float64(sB-sA) / 16 // bytes of file per unit of n, measured; then corrected on the real size (Newton steps)
+		s := s0
+		for it := 0; it < 30; it++ {
+			step := int(float64(T-s) / slope)
+			if step == 0 || n+step < 0 {
+				break
+			}
+			n += step
+			if s = sizeOf(sh.build(n, 0)); s < 0 {
+				return 0, 0, false
 			}
 		}
-		for {
+		for s > T && n > 0 {
+			n--
+			s = sizeOf(sh.build(n, 0))
+		}
+		for it := 0; it < 64; it++ {
 			if s2 := sizeOf(sh.build(n+1, 0)); s2 >= 0 && s2 <= T {
 				n, s = n+1, s2
 			} else {
@@ -414,14 +429,23 @@ func TestVerifC19Size(t *testing.T) {
 		targets = append(targets, T)
 	}
 	sort.Ints(targets)
-	firstOfKind := map[int]string{0: shapes[0].name, 1: "long-name"}
+	wideShapes := map[string]bool{"requirements": true, "ignore-patterns": true, "long-name": true, "long-name-two-byte-characters": true}
+	all3, just1 := []int{-1, 0, 1}, []int{1}
 	for _, T := range targets {
+		wide := T > 1<<widePow
+		if os.Getenv("VERIF_SIZE_DEBUG") != "" {
+			fmt.Fprintln(os.Stderr, "target", T, time.Since(t0), stats["cases"], bytesTotal)
+		}
 		for _, sh := range shapes {
-			if T > 1<<widePow && !(sh.name == firstOfKind[sh.kind] || sh.name == "ignore-patterns" || sh.name == "long-name-two-byte-characters" && T <= 1<<20) {
+			if wide && !wideShapes[sh.name] {
 				continue
 			}
+			deltas := all3
+			if wide && sh.name != "long-name" {
+				deltas = just1
+			}
 			// (a) the FILE is T-1, T, T+1 bytes long
-			for _, d := range []int{-1, 0, 1} {
+			for _, d := range deltas {
 				if n, pad, ok := exact(sh, T+d); ok {
 					if sz := sizeOf(sh.build(n, pad)); sz == T+d {
 						stats["exact-file-size"]++
@@ -433,45 +457,58 @@ func TestVerifC19Size(t *testing.T) {
 					stats["shape-cannot-be-that-small"]++
 				}
 			}
-			// (b) the PARAMETER is T-1, T, T+1: that many entries (up to 2^16+1), a string of that many bytes
-			if sh.kind == 0 && T > 1<<16 {
+			// (b) the PARAMETER is T-1, T, T+1: that many entries, a string of that many bytes
+			if sh.kind == 0 && T > 1<<cntPow || sh.kind == 1 && wide && sh.name != "long-name" {
 				continue
 			}
-			for _, d := range []int{-1, 0, 1} {
+			for _, d := range all3 {
 				do(sh, T+d, 0, fmt.Sprintf("parameter:%d%+d", T, d), false)
 			}
 		}
 	}
+	if cntPow < 16 {
+		light = true
+		do(shapes[0], 1<<16+1, 0, "parameter:65536+1", false)
+		light = false
+	}
 	// alignment: byte T of the file at every position of a line
 	for _, T := range alignTs {
+		if os.Getenv("VERIF_SIZE_DEBUG") != "" {
+			fmt.Fprintln(os.Stderr, "align", T, time.Since(t0), stats["cases"], bytesTotal)
+		}
 		for _, sh := range shapes {
-			if !sh.lines {
+			if !sh.lines || T >= 1<<16 && os.Getenv("VERIF_SIZE_ALIGN_ALL") == "" && sh.name != "requirements-quoted-keys" {
 				continue
 			}
+			light = T >= 1<<15
 			n, _, ok := exact(sh, T+T/2)
 			if !ok {
 				continue
 			}
-			width := 0 // the longest line near the boundary, measured on the file itself
+			width := 0 // the longest line of [requirements], measured on the file itself
 			os.Remove(p2)
 			c19write(p2, sh.build(n, 0))
 			b, _ := os.ReadFile(p2)
+			if i := strings.Index(string(b), "[requirements]\n"); i >= 0 {
+				b = b[i:]
+			}
 			for _, ln := range strings.SplitAfter(string(b), "\n") {
-				if len(ln) > width {
+				if len(ln) > width && len(ln) <= 160 {
 					width = len(ln)
 				}
 			}
 			for pad := 0; pad <= width+2; pad++ {
 				do(sh, n, pad, fmt.Sprintf("alignment:%d", T), false)
 			}
+			light = false
 		}
 	}
 	// seeded sizes between the targets
 	for i := 0; i < nRandom; i++ {
 		sh := shapes[rng.Intn(len(shapes))]
-		top := maxPow
-		if sh.name != firstOfKind[sh.kind] {
-			top = widePow
+		top := widePow
+		if sh.name == "long-name" {
+			top = maxPow
 		}
 		k := 8 + rng.Intn(top-8)
 		T := 1<<k + rng.Intn(1<<k)
